@@ -28,7 +28,7 @@ import tokenize
 import z3
 
 from pyvc import loader
-from pyvc.interp import Env, PathEnd, _ENGINE
+from pyvc.interp import Env, PathEnd, SymBytes, _ENGINE
 from pyvc.pack import Case, Ground
 
 loader.import_repo()
@@ -253,32 +253,85 @@ def handler_cases():
                 ctx.oblige("meaning", r.cond == want)
                 ctx.oblige("message-slot", z3.BoolVal((("msg", 1) in log) == has_msg and (r.msg == "the message") == has_msg))
                 return
+            # operand representations: a symbolic term, or a *concrete* python bytes object whose
+            # content is arbitrary (SymBytes: what the extractors return for concrete calldata)
+            def operand(name, nbits, rep):
+                if rep == "term":
+                    return z3.BitVec(name, nbits), z3.BitVec(name, nbits)
+                sym = ctx.new_int_input(name, nbits)
+                return SymBytes(nbits // 8, sym), z3.BitVec(name, nbits)
+
+            reps = ("term", "concrete")
             if typ in ("string", "bytes") or typ.endswith("[]"):
                 unit = 8 if typ in ("string", "bytes") else 256
                 lens = (0, 1, 2, 33) if unit == 8 else (0, 1, 2)
                 k = ctx.choose(len(lens) ** 2, "lengths")
                 la, lb = lens[k // len(lens)], lens[k % len(lens)]
-                va = b"" if la == 0 else z3.BitVec("A", la * unit)
-                vb = b"" if lb == 0 else z3.BitVec("B", lb * unit)
+                kr = ctx.choose(4, "representations")
+                ra, rb = reps[kr // 2], reps[kr % 2]
+                va, sa = (b"", None) if la == 0 else operand("A", la * unit, ra)
+                vb, sb = (b"", None) if lb == 0 else operand("B", lb * unit, rb)
                 d = {0: va, 1: vb}
                 arg = GhostCalldata(bytes_args=d, arrays=d, has_msg=has_msg)
                 r = run_handler(interp, sig, arg)
                 if r is None:
                     return
-                ctx.oblige("meaning/length-sensitive", r.cond == rel_seq(op, la, va, lb, vb), info={"lengths": f"{la},{lb}"})
+                ctx.oblige("meaning/length-sensitive", r.cond == rel_seq(op, la, sa, lb, sb), info={"lengths": f"{la},{lb}", "representations": f"{ra},{rb}"})
                 kind = "bytes" if unit == 8 else "array"
                 ctx.oblige("operands-read-from-arguments-0-and-1", z3.BoolVal([e for e in log if e[0] == kind] == [(kind, 0), (kind, 1)]))
             else:
-                arg = GhostCalldata(words={4: A, 36: B}, has_msg=has_msg)
+                kr = ctx.choose(4, "representations")
+                ra, rb = reps[kr // 2], reps[kr % 2]
+                va, _ = operand("A", 256, ra)
+                vb, _ = operand("B", 256, rb)
+                arg = GhostCalldata(words={4: va, 36: vb}, has_msg=has_msg)
                 r = run_handler(interp, sig, arg)
                 if r is None:
                     return
-                ctx.oblige("meaning", r.cond == rel_word(op, typ, A, B))
+                ctx.oblige("meaning", r.cond == rel_word(op, typ, A, B), info={"representations": f"{ra},{rb}"})
                 ctx.oblige("operands-read-from-words-4-and-36", z3.BoolVal([e for e in log if e[0] == "word"] == [("word", 4), ("word", 36)]))
             ctx.oblige("message-slot", z3.BoolVal((("msg", 2) in log) == has_msg and (r.msg == "the message") == has_msg))
 
         out.append(Case(f"{PROP}/assertions.handler", sig, harness, sources=srcs, replay=replay_handler(sig)))
     return out
+
+
+def replay_seq(sig, op, params, r):
+    """real handler on real ABI-encoded calldata with concrete bytes/string/array operands"""
+    from halmos.bytevec import ByteVec
+
+    typ = params[0]
+    unit = 1 if typ in ("bytes", "string") else 32
+    m = r.get("model") or {}
+    try:
+        la, lb = [int(x) for x in (r.get("info") or {}).get("lengths", "1,1").split(",")]
+    except ValueError:
+        la, lb = 1, 1
+
+    def enc(payload, n_elems):
+        return n_elems.to_bytes(32, "big") + payload + b"\0" * (-len(payload) % 32)
+
+    cands = []
+    if isinstance(m.get("A"), int) and isinstance(m.get("B"), int) and la and lb:
+        cands.append((m["A"].to_bytes(la * unit, "big"), m["B"].to_bytes(lb * unit, "big")))
+    z = b"\0" * unit
+    one = (1).to_bytes(unit, "big")
+    cands += [(z + one, one), (one, z + one), (one, one), (one + z, one), (z, z + z), (b"", z), (one, (2).to_bytes(unit, "big"))]
+    h = ha.assert_cheatcode_handler.get(keccak4(sig)) or ha.mk_assert_handler(sig)
+    for a, b in cands:
+        ea, eb = enc(a, len(a) // unit), enc(b, len(b) // unit)
+        em = enc(b"m", 1)
+        head = (96).to_bytes(32, "big") + (96 + len(ea)).to_bytes(32, "big") + (96 + len(ea) + len(eb)).to_bytes(32, "big")
+        data = keccak4(sig).to_bytes(4, "big") + head + ea + eb + em
+        try:
+            cond = h(ByteVec(data)).cond
+            got = z3.is_true(z3.simplify(cond))
+        except Exception as e:  # noqa
+            return {"reproduced": True, "detail": f"{sig} on ({a.hex()},{b.hex()}) raised {type(e).__name__}: {e}"}
+        want = (a == b) if op == "Eq" else (a != b)
+        if got != want:
+            return {"reproduced": True, "detail": f"{sig} with operands (0x{a.hex()}, 0x{b.hex()}): handler condition is {got}, the signature's relation is {want}", "inputs": [a.hex(), b.hex()]}
+    return {"reproduced": False, "detail": "real handler agrees with the relation on the candidate operands and the solver's model"}
 
 
 def replay_handler(sig):
@@ -287,8 +340,10 @@ def replay_handler(sig):
         from halmos.bytevec import ByteVec
 
         op, params = parse_sig(sig)
-        if op in ("True", "False") or params[0] not in ("uint256", "int256", "bool", "address", "bytes32"):
+        if op in ("True", "False"):
             return {"reproduced": None, "detail": "no concrete replay for this operand kind"}
+        if params[0] not in ("uint256", "int256", "bool", "address", "bytes32"):
+            return replay_seq(sig, op, params, r)
         vals = [0, 1, 2, 2**255 - 1, 2**255, 2**256 - 1]
         m = r.get("model") or {}
         for k in ("A", "B"):
